@@ -30,6 +30,8 @@ type replayDriver struct {
 	tmpl  string // Go test template; fields are the decoded inputs
 	// byte-string inputs (SMT terms of sort Bytes): read back as length + elements and rendered as a Go []byte literal
 	bytesTerms func(c *Ctx) (map[string]string, bool)
+	// string inputs (SMT constants of sort Bytes): read back through blen / bat
+	stringTerms func(c *Ctx) (map[string]string, bool)
 }
 
 var replayDrivers = map[string]*replayDriver{
@@ -210,6 +212,31 @@ func TestReplayVerif(t *testing.T) {
 }
 `,
 		}
+	}
+	replayDrivers["zapcore.fnv32a"] = &replayDriver{
+		pkg:   "zapcore",
+		terms: func(c *Ctx) (map[string]string, bool) { return map[string]string{}, true },
+		stringTerms: func(c *Ctx) (map[string]string, bool) {
+			p := c.paramConst("s")
+			return map[string]string{"S": p}, p != ""
+		},
+		tmpl: `package zapcore
+
+import (
+	"hash/fnv"
+	"testing"
+)
+
+// Replay of a refuted obligation of fnv32a: the message comes from the solver's model; the oracle is hash/fnv.
+func TestReplayVerif(t *testing.T) {
+	s := {{.S}}
+	h := fnv.New32a()
+	h.Write([]byte(s))
+	if got, want := fnv32a(s), h.Sum32(); got != want {
+		t.Fatalf("REPLAY-VIOLATION fnv32a(%q) = %d, want %d (32-bit FNV-1a over the bytes)", s, got, want)
+	}
+}
+`,
 	}
 	replayDrivers["(*zapcore.Level).UnmarshalText"] = &replayDriver{
 		pkg: "zapcore",
@@ -600,6 +627,57 @@ func replayOnceInner(root, repo, prop string, c *Ctx, o *Obligation, payload map
 				}
 			}
 			inputs[name] = lit + "}"
+		}
+	}
+	if d.stringTerms != nil {
+		sts, ok := d.stringTerms(c)
+		if !ok {
+			payload["replay"] = "replay driver for " + id + ": string inputs not found in the query"
+			return false
+		}
+		for name, term := range sts {
+			// prefer a short string: bound the length in the value queries when such a model exists
+			bound := fmt.Sprintf("(assert (and %s %s))\n", c.le(c.idx(0), fmt.Sprintf("(blen %s)", term)), c.le(fmt.Sprintf("(blen %s)", term), c.idx(12)))
+			if !strings.Contains(replayExtraAsserts, bound) {
+				saved := replayExtraAsserts
+				replayExtraAsserts += bound
+				if v, _ := getValues(o.File, map[string]string{"len": fmt.Sprintf("(blen %s)", term)}); v == nil {
+					replayExtraAsserts = saved
+				}
+			}
+			lv, raw := getValues(o.File, map[string]string{"len": fmt.Sprintf("(blen %s)", term)})
+			if lv == nil {
+				payload["replay"] = map[string]interface{}{"driver": id, "error": "could not read back the length of " + name, "solver_output": truncate(raw, 1000)}
+				return false
+			}
+			*blockParts = append(*blockParts, fmt.Sprintf("(= (blen %s) %s)", term, lv["len"]))
+			ls, ok := decodeSMTInt(lv["len"], 64)
+			n, _ := new(big.Int).SetString(ls, 10)
+			if !ok || n == nil || n.Sign() < 0 || n.Cmp(big.NewInt(64)) > 0 {
+				payload["replay"] = map[string]interface{}{"driver": id, "error": "model length of " + name + " is not in 0..64: " + lv["len"]}
+				return false
+			}
+			elems := map[string]string{}
+			for i := 0; i < int(n.Int64()); i++ {
+				elems[fmt.Sprintf("b%03d", i)] = fmt.Sprintf("(bat %s %s)", term, c.idx(int64(i)))
+			}
+			lit := "string([]byte{"
+			if len(elems) > 0 {
+				ev, raw := getValues(o.File, elems)
+				if ev == nil {
+					payload["replay"] = map[string]interface{}{"driver": id, "error": "could not read back the bytes of " + name, "solver_output": truncate(raw, 1000)}
+					return false
+				}
+				for i := 0; i < int(n.Int64()); i++ {
+					b, ok := decodeSMTInt(ev[fmt.Sprintf("b%03d", i)], 64)
+					if !ok {
+						return false
+					}
+					bi, _ := new(big.Int).SetString(b, 10)
+					lit += fmt.Sprintf("%d, ", new(big.Int).And(bi, big.NewInt(255)).Int64())
+				}
+			}
+			inputs[name] = lit + "})"
 		}
 	}
 	var src bytes.Buffer
